@@ -11,8 +11,8 @@ from .c02 import _is_incr_of, _in_loop
 
 
 def _dykstra(eng):
-    fi = eng.fn("util.dykstra")
-    cfg = eng.cfg(fi)
+    from .common import lowered_enumerate
+    fi, cfg = lowered_enumerate(eng, eng.fn("util.dykstra"))      # `for i, proj in enumerate(P): proj(..)` is read as `for i in range(0, len(P)): P[i](..)`
     wl = [(h, st) for (h, kind, st) in cfg.loops if kind == "while"]
     fl = [(h, st) for (h, kind, st) in cfg.loops if kind == "for"]
     if len(wl) != 1 or len(fl) != 1:
